@@ -315,6 +315,7 @@ def run(ctx):
             else:
                 ctx.violate("R9", f"{short}.load_many yields frames from `zip(...)` over {len(inner.args)} arrays without measuring the zipped sequence (zip stops at the shortest array: missing steps are dropped silently)", g, inner)
     ctx.floor("R9", nzip, 1, "zip-driven frame loops")
+    check_terminator_flag(ctx)
 
     # dump side of R6
     ndm = 0
@@ -382,3 +383,74 @@ def run(ctx):
     else:
         ctx.violate("R4", f"the iterable is wrapped {wraps}x with iter() and advanced {draws}x with next() (expected 1 and 1)", dm, dm.node, construct="iter/next discipline")
     ctx.floor("R6", ndm, 4, "format dump_many functions")
+
+
+PDB_RECORDS = ["ATOM", "HETATM", "TER", "CONECT", "MODEL", "TITLE", "COMPND", "REMARK", "CRYST1", "MASTER", "ANISOU", "END", "ENDMDL"]
+PDB_TERMINATORS = {"END", "ENDMDL"}
+
+
+def check_terminator_flag(ctx):
+    """R10: the flag that suppresses the missing-END warning of the PDB frame parser is raised by END / ENDMDL only.
+
+    The path condition of every `flag = True` is evaluated for each PDB record name (finite domain).
+    """
+    from ..accessors import AccessorEval, Raised, _Expr
+    from ..symarr import NotSymbolic
+
+    prog = ctx.prog
+    ctx.rule("R10", "only the frame terminator switches off the 'file ended without END' warning", "a frame cut after another record (TER, CONECT...) is returned as complete, without warning")
+    f = prog.func("iodata.formats.pdb.load_one")
+    pm = prog.parents(f)
+    # the flag: `if not <flag>: warn(...)`
+    flags = []
+    for n in f.own_nodes():
+        if isinstance(n, ast.If) and isinstance(n.test, ast.UnaryOp) and isinstance(n.test.op, ast.Not) and isinstance(n.test.operand, ast.Name):
+            if any(isinstance(x, ast.Call) and getattr(x.func, "id", "") == "warn" for s_ in n.body for x in ast.walk(s_)):
+                flags.append(n.test.operand.id)
+    if len(flags) != 1:
+        raise AnalysisError("pdb.load_one: cannot find the `if not <flag>: warn(...)` statement for a missing END record")
+    flag = flags[0]
+    sets = [n for n in f.own_nodes() if isinstance(n, ast.Assign) and any(isinstance(t, ast.Name) and t.id == flag for t in n.targets) and isinstance(n.value, ast.Constant) and n.value.value is True]
+    if not sets:
+        ctx.violate("R10", f"`{flag}` is never set: the warning is issued for every file", f, f.node, construct="terminator flag never set")
+        return
+    linevar = None
+    bad = []
+    try:
+        for st in sets:
+            conds = []
+            cur = st
+            while id(cur) in pm:
+                par = pm[id(cur)]
+                if isinstance(par, ast.If):
+                    conds.append((par.test, any(cur is b for b in par.body)))
+                cur = par
+            names = {x.id for c, _ in conds for x in ast.walk(c) if isinstance(x, ast.Name)}
+            lv = [n_ for n_ in names if n_ in ("line",) or n_.startswith("line")]
+            linevar = lv[0] if lv else None
+            if linevar is None:
+                ctx.violate("R10", f"`{flag} = True` does not depend on the record being read", f, st)
+                continue
+            others = sorted(names - {linevar})
+            for rec in PDB_RECORDS:
+                for vals in ([True], [False]) if others else ([None],):
+                    env = {linevar: rec.ljust(6) + " " * 70 + "\n"}
+                    for o in others:
+                        env[o] = vals[0]
+                    ev = AccessorEval(prog, None)
+                    ev.module = f.module
+                    ok_path = True
+                    for c, pos in conds:
+                        v = bool(_Expr(env, ev).eval(c))
+                        if v != pos:
+                            ok_path = False
+                            break
+                    if ok_path and rec not in PDB_TERMINATORS:
+                        bad.append((rec, st))
+    except (NotSymbolic, Raised) as exc:
+        raise AnalysisError(f"pdb.load_one: the condition that sets `{flag}` is outside the evaluation whitelist: {exc}") from exc
+    if bad:
+        recs = sorted({r for r, _ in bad})
+        ctx.violate("R10", f"pdb.load_one sets `{flag}` on {recs} records: a frame that ends after such a record (file cut before END / ENDMDL) is returned without the missing-END warning", f, bad[0][1])
+    else:
+        ctx.ok("R10", f"pdb.load_one: `{flag}` is set only for END / ENDMDL among {len(PDB_RECORDS)} record names; every other end of input gives the warning", f"{f.module.relpath}:{sets[0].lineno}")
